@@ -65,12 +65,19 @@ class SimContext:
         self.sched, self.world = sched, world
         self.shared = {}              # id(obj) -> obj: travels by identity
         self.children_objects = []    # the unpickled targets' objects (for the oracle)
+        self.array_fault = None       # callable() -> errno or 0: Array() fails
 
     def _share(self, obj):
         self.shared[id(obj)] = obj
         return obj
 
     def Array(self, typecode, size):
+        if self.array_fault is not None:
+            err = self.array_fault()
+            if err:
+                # no shared memory to be had: EMFILE, /dev/shm full, mmap refused
+                self.world.count("fault/shared-memory-allocation-failed")
+                raise OSError(err, "injected failure of a shared-memory allocation")
         a = self._share(SimArray(typecode, size))
         self._share(a.obj)
         return a
